@@ -134,19 +134,25 @@ theorem C06_unitary_is_product (conj : α → α) (c : Circ P α) (hc : c.OpsOK)
         = prodRev (loopMats (prod c.radixes) c.radixes (params.length ≠ 0) params c.ops 0) :=
   getUnitary_is_product conj c hc params hps
 
-/-- `get_statevector(StateVector(v, circuit.radixes), params)` = that product applied to `v`.
-`_partial`: the input state must carry the circuit's radixes.  The code builds
-`StateVector(in_state)` and for a plain vector infers the radixes from the dimension
-(`C06_statevector_witness`). -/
-theorem C06_statevector_is_product_partial (conj : α → α) (c : Circ P α) (hc : c.OpsOK)
-    (inState : T α) (hsize : inState.data.size = prod c.radixes) (params : List P)
-    (hps : params = [] ∨ params.length = c.numParams) :
-    ∃ v, c.getStatevector conj inState (some c.radixes) params = .ok v ∧
-      toVec (prod c.radixes) v
-        = Matrix.mulVec
-            (prodRev (loopMats (prod c.radixes) c.radixes (params.length ≠ 0) params c.ops 0))
-            (toVec (prod c.radixes) inState) :=
-  getStatevector_is_product conj c hc inState hsize params hps
+/-- **`get_statevector(v, params)` = that product applied to `v`**, for a plain vector
+(`sr = none`: the code builds `StateVector(in_state, self.radixes)`) and for a `StateVector`
+carrying the circuit's radixes (`hsr` says: `sr` is `none` or `some c.radixes`; a
+`StateVector` built by the caller with other radixes keeps them and is outside the
+property).  A vector of the wrong dimension is a `ValueError`. -/
+theorem C06_statevector_is_product (conj : α → α) (c : Circ P α) (hc : c.OpsOK)
+    (inState : T α) (sr : Option (List Nat)) (hsr : sr.getD c.radixes = c.radixes)
+    (params : List P) (hps : params = [] ∨ params.length = c.numParams) :
+    (inState.data.size = prod c.radixes →
+      ∃ v, c.getStatevector conj inState sr params = .ok v ∧
+        toVec (prod c.radixes) v
+          = Matrix.mulVec
+              (prodRev (loopMats (prod c.radixes) c.radixes (params.length ≠ 0) params c.ops 0))
+              (toVec (prod c.radixes) inState)) ∧
+    (inState.data.size ≠ prod c.radixes →
+      c.getStatevector conj inState sr params = .error .valueError) :=
+  ⟨fun hsize => getStatevector_is_product conj c hc inState hsize sr hsr params hps,
+   fun hsize => getStatevector_dim_error conj c inState sr
+     (by rw [hsr]; exact fun h => hsize h.symm) params hps⟩
 
 /-- **`get_unitary_and_grad`** returns the ordered product and, in flat-parameter order,
 `R_j · (embed(∂_k U_j) · L_j)` with `R_j = E_n ⋯ E_{j+1}`, `L_j = E_{j-1} ⋯ E_1`
@@ -222,29 +228,6 @@ example {R : Type} [Ring R] (x : R) :
 
 example : ∃ l : List (Int × Int × List Int), l ≠ [] ∧ ∀ x ∈ l, x.1 * x.2.1 = 1 :=
   ⟨[(1, 1, [2, 3]), (-1, -1, [5])], by decide, by decide⟩
-
-/-! ## the defect of `get_statevector` on plain vectors -/
-
-/-- `X` on qudit 1 of a circuit with radixes `[4, 2]`. -/
-def wX : GOp Unit Int :=
-  { gid := 0, loc := [1], params := [], numParams := 0, radixes := [2],
-    unitary := fun _ => ⟨[2, 2], #[0, 1, 1, 0]⟩, grad := fun _ => [] }
-def wCirc : Circ Unit Int := ⟨[4, 2], 1, [(0, wX)]⟩
-def wE0 : T Int := ⟨[8], #[1, 0, 0, 0, 0, 0, 0, 0]⟩
-def outList (r : Except Err (T Int)) : Option (List Int) :=
-  match r with
-  | .ok t => some t.data.toList
-  | .error _ => none
-
-/-- The full statement "`get_statevector(v)` = product · `v`" FAILS for a plain vector
-(`stateRadixes = none`): on `Circuit(2, [4, 2])` with `X` on qudit 1 the model — like the
-real code — maps `|0⟩` to `|2⟩`, whereas with the circuit's radixes (and by
-`C06_unitary_is_product`) the answer is `|1⟩`.  Replayed on the real code by
-`harness/c06.py:fixed_cases`. -/
-theorem C06_statevector_witness :
-    outList (wCirc.getStatevector id wE0 none []) = some [0, 0, 1, 0, 0, 0, 0, 0] ∧
-    outList (wCirc.getStatevector id wE0 (some [4, 2]) []) = some [0, 1, 0, 0, 0, 0, 0, 0] := by
-  decide
 
 /-! ## the flat parameter vector -/
 
@@ -327,7 +310,7 @@ private theorem nvCirc_opsOK : nvCirc.OpsOK := by
   rcases he with rfl | rfl | rfl <;>
     exact ⟨by decide, by decide, fun _ => rfl, fun _ g hg => by simp [nvOp] at hg, by decide⟩
 
-/-- hypotheses of `C06_unitary_is_product`, `C06_statevector_is_product_partial`,
+/-- hypotheses of `C06_unitary_is_product`, `C06_statevector_is_product`,
 `C06_grad_loop` are satisfiable (explicit parameters included). -/
 example : nvCirc.OpsOK ∧ ([1, 2, 3] : List Nat).length = nvCirc.numParams :=
   ⟨nvCirc_opsOK, by decide⟩
@@ -351,6 +334,8 @@ example : nvCircU.OpsOK ∧
     congr 1
 
 example : nvCirc.WF := nvCirc_wf
+example : (none : Option (List Nat)).getD nvCirc.radixes = nvCirc.radixes ∧
+    (some nvCirc.radixes).getD nvCirc.radixes = nvCirc.radixes := ⟨rfl, rfl⟩
 example : nvCirc.params = [7, 8, 9] := by decide
 example : (2 : Nat) < nvCirc.params.length := by decide
 example : ∃ c', nvCirc.setParams [1, 2, 3] = .ok c' :=
